@@ -981,6 +981,9 @@ def parse_tree_to_objgraph(
                 models = list(
                     filter(lambda x: hasattr(x, "_tx_reference_resolver"), models)
                 )
+                # These are the models loaded by this load (used if a model
+                # processor fails afterwards).
+                parser._models_of_this_load = models
 
                 resolved_count = 1
                 unresolved_count = 1
